@@ -8,18 +8,19 @@ import (
 )
 
 // Value domain of the executor (see DESIGN 2.2).
-//   ints:    int64 (concrete) | *Term sort Int
-//   bools:   bool | *Term sort Bool
-//   float64: F
-//   string:  string
-//   pointer: *Cell (nil pointer = (*Cell)(nil))
-//   struct:  StructV (immutable value) ; storage *StructObj inside a Cell
-//   array:   ArrayV ; storage *Backing inside a Cell
-//   slice:   SliceV
-//   iface:   Iface | nil
-//   func:    *ssa.Function | *Closure | *ssa.Builtin | nil
-//   map:     *MapV
-//   tuple:   Tuple
+//
+//	ints:    int64 (concrete) | *Term sort Int
+//	bools:   bool | *Term sort Bool
+//	float64: F
+//	string:  string
+//	pointer: *Cell (nil pointer = (*Cell)(nil))
+//	struct:  StructV (immutable value) ; storage *StructObj inside a Cell
+//	array:   ArrayV ; storage *Backing inside a Cell
+//	slice:   SliceV
+//	iface:   Iface | nil
+//	func:    *ssa.Function | *Closure | *ssa.Builtin | nil
+//	map:     *MapV
+//	tuple:   Tuple
 type Value interface{}
 
 type F struct {
